@@ -31,6 +31,8 @@ MANIFEST = dict(
         "the model of computeBias (free-variable mean, else midpoint of the two bounds; variables with an empty box interior "
         "skipped) satisfies g_i - b <= eps for i not at the upper and b - g_j <= eps for j not at the lower bound, for gradients "
         "inside the C++ sentinel range [-1e100,1e100] (bias_sentinel_witness outside; bias_degenerate_box_instance_repaired); "
+        "eps_offset_in_kkt_interval_partial / oneclass_offset_in_kkt_interval_partial -- the same for the offset loops of "
+        "EpsilonSvmTrainer and OneClassSvmTrainer (shown equal to computeBias on boxes with non-empty interior); "
         "unpermute_correct -- getUnpermutedAlpha inverts every injective accumulated permutation. Widened trainers: csvmInit2_inv "
         "(class-specific C, per-example weights), epsInit_inv (2n-variable epsilon-regression problem) and oneClassInit_inv "
         "(alpha = 1/n start, coefficient sum 1; via initWith_inv) show that these problems start inside the C08 invariant, "
@@ -55,9 +57,7 @@ MANIFEST = dict(
         "against 2*eps*sum(U-L)."),
   note=TRUST + "Hypotheses carried by the theorems: PSD-ness and symmetry of the kernel matrix (kkt_eps_near_optimal, config_independence); "
        "the C08 state invariant (proved for every admissible solver history in Props/C08.lean: reachable_inv); bias_in_kkt_interval "
-       "is _partial (|gradient| > 1e100 is accepted by the C++ and breaks it: witness theorem). The theorems on the bias are about "
-       "CSvmTrainer::computeBias; the offset loops of EpsilonSvmTrainer / OneClassSvmTrainer are modelled and tied bit-for-bit and "
-       "checked by the oracle, not proved. NOT proved: that the solver reaches the accuracy (termination); Gaussian kernels only "
+       "is _partial (|gradient| > 1e100 is accepted by the C++ and breaks it: witness theorem). NOT proved: that the solver reaches the accuracy (termination); Gaussian kernels only "
        "through the toleranced oracle. Found by this check and repaired in /repo (fix: commits, known_findings.json `fixed`): "
        "F-C07-1..6 (EpsilonSvmTrainer offset, warm-start clipping x2, float warm-start gradient, zero-weight bias, weighted "
        "warm start without bias throws).",
